@@ -4,11 +4,11 @@ from fractions import Fraction
 import lib, storelib as S, arithlib as A
 from lib import Result, model_call, run_sharded, e_fmt, e_list, Reader, outcome
 
-RULE = ('all codes for n_word<=4 (quick) / <=6 (thorough), boundary/random codes for n_word<=32, signed and unsigned, n_frac in {0, n_word/2}, shift counts 0..n_word+3 subject to n_word+n<=62, '
+RULE = ('all codes for n_word<=4 (quick) / <=6 (thorough), boundary/random codes for n_word<=32 with shift counts 0..n_word+3 subject to n_word+n<=62, and (stratum C) words 33..96 with counts to 70 (results to 166 bits, codes at and next to powers of two), signed and unsigned, n_frac in {0, n_word/2}, '
         'the three shifting modes (expand, trunc, keep), scalars and arrays (array-wide min_pow2 and word growth), shift counts given as Python or NumPy integers. Checked with exact rationals on the implementation output: expand: value(x<<n) = value*2^n, '
         'value(x>>n) = value/2^n, no flag; trunc/keep: format unchanged, x>>n = floor(code/2^n), x<<n exact when representable else inside the range; shift by zero is the identity; operand unchanged; and against the model. '
         'Non-trivial = code != 0 and n > 0; distinct by full input.')
-ASSUMPTIONS = ['the float log2 bit-length formula of << is valid for |code| < 2^47 (n_word <= 32 in the quantifier)']
+ASSUMPTIONS = []
 MODES = ['expand', 'trunc', 'keep']
 
 def run_cases(cases, res, stratum):
@@ -31,6 +31,7 @@ def run_cases(cases, res, stratum):
         m = 0 if c['mode'] == 'expand' else 1
         reqs.append([91, m] + e_fmt(s, nw, nf) + e_list(codes) + [n])
         if not arr: reqs.append([90, m] + e_fmt(s, nw, nf) + [codes[0], n])
+        reqs.append([92, m] + e_fmt(s, nw, nf) + e_list(codes) + [n])
     outs = model_call(reqs); k = 0
     for c, obs in pend:
         s, nw, nf = c['f']; n = c['n']; codes = c['codes']; arr = len(codes) > 1
@@ -42,10 +43,12 @@ def run_cases(cases, res, stratum):
         o_r = outs[k]; k += 1
         o_l = None
         if not arr: o_l = outs[k]; k += 1
+        o_la = outs[k]; k += 1
         if obs['x_after'] != codes or obs['x_fmt'] != (s, nw, nf):
             res.fail(c, 'C14: the operand was modified by a shift'); continue
         lo, hi = S.fmt_bounds(s, nw)
-        if list(obs['views']) != [lv, lv, rv, rv]:
+        views_exact = all(abs(t) < 2 ** 53 for t in cl + cr)          # (the value views are doubles: exact below 2^53 in magnitude)
+        if views_exact and list(obs['views']) != [lv, lv, rv, rv]:
             res.fail(c, 'C14: a value view of the shifted result (get_val(), .real) is not code*2^-n_frac of the result', expected=([str(v) for v in lv], [str(v) for v in rv]), got=[[str(v) for v in w] for w in obs['views']]); continue
         if obs['val_is_array'] != (True, True):
             res.fail(c, 'C14: the raw value of a shifted result is not an array (a bare number)', expected=(True, True), got=obs['val_is_array']); continue
@@ -79,7 +82,12 @@ def run_cases(cases, res, stratum):
             if kind == 'ok':
                 mf = (rd.b(), rd.z(), rd.z()); mc = rd.lst(rd.z)
             if kind != 'ok' or mf != fl or mc != cl:
-                res.fail(c, 'model Shift.lshift disagrees with the implementation although the property holds', expected=str(kind), got=(fl, cl)); res.failures[-1]['no_input'] = True
+                res.fail(c, 'model Shift.lshift disagrees with the implementation although the property holds', expected=str(kind), got=(fl, cl)); res.failures[-1]['no_input'] = True; continue
+        kind, rd = outcome(o_la)
+        if kind == 'ok':
+            mf = (rd.b(), rd.z(), rd.z()); mc = rd.lst(rd.z); mflags = (rd.b(), rd.b())
+        if kind != 'ok' or mf != fl or mc != cl or mflags != sl:
+            res.fail(c, 'model Shift.fxp_lshift_arr disagrees with the implementation although the property holds', expected=(str(kind), (mf, mc, mflags) if kind == 'ok' else None), got=(fl, cl, sl)); res.failures[-1]['no_input'] = True
 
 def shard(shard, nshards, rng, tier, extra):
     res = Result()
@@ -107,6 +115,19 @@ def shard(shard, nshards, rng, tier, extra):
         cs = [max(lo, min(hi, code())) for _ in range(k)]
         cases.append({'f': [s, nw, nf], 'codes': cs, 'n': n, 'mode': rng.choice(MODES), 'count': rng.choice(['int', 'int', 'np.int64', 'np.uint8'])})
     run_cases(cases, res, 'B:boundary-random-to-32')
+    # C: wider words (33..96) and large counts: the shifted code leaves int64 / uint64, object arrays of Python integers
+    cases = []
+    for _ in range((1500 if tier == 'quick' else 40000) // nshards):
+        nw = rng.choice([33, 40, 47, 48, 49, 52, 53, 54, 60, 62, 63, 64, 65, 72, 96, rng.randint(33, 96)]); s = rng.random() < 0.6; nf = rng.choice([0, nw // 2]); lo, hi = S.fmt_bounds(s, nw)
+        n = rng.choice([0, 1, 2, 3, rng.randint(0, 70), max(0, 62 - nw), max(0, 63 - nw), max(0, 64 - nw), 64])
+        def code():
+            k = rng.randint(1, nw - 1)
+            c = rng.choice([1 << k, (1 << k) - 1, (1 << k) + 1, 3 << (k - 1), hi, hi - 1, 0, 1, rng.randint(0, hi), rng.randint(0, hi) >> rng.randint(0, nw)])
+            if s and rng.random() < 0.45: c = rng.choice([-c, -c - 1, lo, lo + 1, -1])
+            return max(lo, min(hi, c))
+        cs = [code() for _k in range(rng.choice([1, 1, 2, 3]))]
+        cases.append({'f': [s, nw, nf], 'codes': cs, 'n': n, 'mode': rng.choice(MODES), 'count': rng.choice(['int', 'int', 'np.int64', 'np.uint8'])})
+    run_cases(cases, res, 'C:wide-words-large-counts')
     res.exhaustive = True
     return res
 
